@@ -225,8 +225,8 @@ SPEC = {
     'deciding': ['rewrite.polynomial', 'rewrite.structure-after', 'rewrite.is_consistent-after', 'simplify.counts-do-not-increase',
                  'add.other-graph-untouched', 'illegal-rename.raises-ValueError', 'illegal-rename.graph-unchanged', 'simplify.terminates-within-budget'],
     'workloads': [
-        Workload('histories', history_case, quick=2500, thorough=100000),
-        Workload('chains-rewrites', chains_then_rewrites, quick=500, thorough=20000),
+        Workload('histories', history_case, quick=2500, thorough=300000),
+        Workload('chains-rewrites', chains_then_rewrites, quick=500, thorough=80000),
     ],
     'shards': {'quick': 2, 'thorough': 16},
     'assumptions': ['free-algebra polynomial as the meaning of a graph'],
